@@ -122,9 +122,10 @@ def typed(eng, su, st, name, v, r):
                       z3.Implies(z3.Not(Val.is_S(v)), r == v),
                       z3.Implies(want_true, fz), z3.Implies(want_false, z3.Not(fz)))
     if name == "ListParameter":
-        return Val.is_L(r)  # item-wise content is checked separately (typed-items)
+        return z3.And(Val.is_L(r), Val.is_L(v))  # only a list has the declared kind; item-wise content is checked separately (typed-items)
     if name == "TupleParameter":
-        return Val.is_D(r)
+        # only a tuple expression (dict) or the empty list `[]` has the declared kind
+        return z3.And(Val.is_D(r), z3.Or(Val.is_D(v), z3.And(Val.is_L(v), z3.Length(Val.items(v)) == 0)))
     if name == "DataParameter":
         return z3.And(r == v, Val.is_O(r), IS_NDARRAY(Val.ref(r)))
     if name == "DataTypeParameter":
